@@ -24,7 +24,7 @@ pub const LOOKS: &[&str] = &[
 
 pub const REPS: &[&str] = &[
     "*", "+", "?", "{2}", "{1,3}", "{0,2}", "*?", "+?", "??", "{2,}", "{3}",
-    "{0}", "{1}", "{0,1}",
+    "{0}", "{1}", "{0,1}", "{10}", "{11}", "{12}",
 ];
 
 /// Shapes that exercise `literal.rs`: inner required literals surrounded by
@@ -162,6 +162,34 @@ pub fn gen_shape(rng: &mut Rng) -> String {
 /// `limit_class` (10), repeats near `limit_repeat` (10), long literals near
 /// `limit_literal_len` (100).
 pub fn gen_limit(rng: &mut Rng) -> String {
+    // the same limits with *literals* on both sides, so that the extractor
+    // concatenates across the limited piece
+    if rng.chance(1, 2) {
+        let l1 = rng.pick(LITS);
+        let l2 = rng.pick(LITS);
+        let mid = rng.pick(&["=", "ab", "a", "-", "foo", "[ab]", "(?:a|b)"]);
+        return match rng.below(5) {
+            0 => format!("{}(?:{}){{{}}}{}", l1, mid, rng.range(8, 14), l2),
+            1 => format!("\\b{}(?:{}){{{}}}{}\\b", l1, mid, rng.range(9, 13), l2),
+            2 => {
+                let n = rng.range(8, 12);
+                let chars: String = "abcdefghijklmnop".chars().take(n).collect();
+                format!("{}[{}]{}", l1, chars, l2)
+            }
+            3 => {
+                let n = rng.range(60, 70);
+                let alts: Vec<String> =
+                    (0..n).map(|i| format!("{}{}", rng.pick(LITS), i)).collect();
+                format!("{}(?:{}){}", l1, alts.join("|"), l2)
+            }
+            _ => {
+                let n = rng.range(95, 105);
+                let lit: String =
+                    (0..n).map(|i| (b'a' + (i % 26) as u8) as char).collect();
+                format!("{}{}{}", l1, lit, l2)
+            }
+        };
+    }
     match rng.below(5) {
         0 => {
             let n = rng.range(60, 70);
@@ -196,7 +224,7 @@ pub fn gen_limit(rng: &mut Rng) -> String {
 }
 
 pub fn gen_any(rng: &mut Rng, corpus: &[String]) -> String {
-    match rng.weighted(&[10, 6, 1, 3]) {
+    match rng.weighted(&[10, 6, 2, 3]) {
         0 => {
             let budget = rng.range(1, 12);
             gen(rng, budget)
